@@ -844,6 +844,24 @@ impl Inner {
                     return Ok(());
                 }
 
+                // We have reset the initiating stream, but the peer may have sent
+                // the PUSH_PROMISE before it saw our RST_STREAM. The promised
+                // stream is reserved nonetheless (RFC 9113, section 6.6), and the
+                // peer is going to use it: refuse it instead of dropping the frame,
+                // which would turn the pushed response into a connection error.
+                if stream.state.is_local_error() {
+                    self.actions.recv.ensure_can_reserve()?;
+                    return match self.actions.recv.open(
+                        promised_id,
+                        Open::PushPromise,
+                        &mut self.counts,
+                    )? {
+                        Some(_) => Err(Error::library_reset(promised_id, Reason::REFUSED_STREAM)),
+                        // over the concurrency limit: the refusal is already pending
+                        None => Ok(()),
+                    };
+                }
+
                 // The stream must be receive open
                 if !stream.state.ensure_recv_open()? {
                     proto_err!(conn: "recv_push_promise: initiating stream is not opened");
